@@ -380,3 +380,69 @@ register("C17", blend_routine(True, "two-layer sprites enumerating (backdrop, so
          "greys, r==g<b) for all 19 modes x opacity pairs, in release and overflow-checks+debug-assertions "
          "builds; the four laws are evaluated on the implementation's pixels; distinct = distinct "
          "(mode, backdrop, source, opacity) tuples"), profiles=("release", "relchk"))
+
+
+def cpp_oracle():
+    """compile ref/blend_ref.cc (which includes /repo/ref/dummy.cc textually) on demand"""
+    exe = os.path.join(vlib.VERIF, "ref", "blend_ref")
+    src = os.path.join(vlib.VERIF, "ref", "blend_ref.cc")
+    dummy = os.path.join(vlib.REPO, "ref", "dummy.cc")
+    if not os.path.exists(dummy):
+        return None
+    if (not os.path.exists(exe)) or os.path.getmtime(exe) < max(os.path.getmtime(src), os.path.getmtime(dummy)):
+        r = subprocess.run(["clang++", "-O1", "-ffp-contract=off", "-w", f'-DREPO_DUMMY="{dummy}"',
+                            "-o", exe, src], capture_output=True, text=True)
+        if r.returncode != 0:
+            log("C++ blend oracle does not compile: " + r.stderr[-800:])
+            return None
+    return exe
+
+
+def c03_run(ctx, scale):
+    base = blend_routine(False, "")
+    res = base(ctx, scale)
+    res.rule = ("(i) Rust vs model through Frame::image on two-layer sprites enumerating pixel pairs for all 19 "
+                "modes x opacity pairs, both build profiles; (ii) model vs the Lean transcription of Aseprite's C++ "
+                "(REFCHECK, executes both sides of theorem blend_eq_ref on IEEE doubles); (iii) that transcription vs "
+                "the compiled C++ of ref/dummy.cc + blend_ref.cc; distinct = distinct frame images")
+    n = (20000 if ctx.quick else 400000) * scale
+    reqs = [f"REFCHECK {mode} {ctx.seed * 50 + scale} {n}" for mode in range(19)]
+    import concurrent.futures
+    def one(req):
+        r = subprocess.run([vlib.ASEDRV], input=req + "\n", capture_output=True, text=True)
+        return r.stdout.strip()
+    with concurrent.futures.ThreadPoolExecutor(max_workers=vlib.CORES) as ex:
+        outs = list(ex.map(one, reqs))
+    bad_ref = [o for o in outs if "mismatches=0" not in o]
+    res.evaluations += n * 19
+    res.distribution["refcheck_pixels_per_mode"] = n
+    res.distribution["refcheck_mismatching_modes"] = len(bad_ref)
+    if bad_ref:
+        # the spec side of the theorem disagrees with the model on Float: FLaws fails for IEEE
+        # doubles or the driver is wrong -- a defect of the machinery, never of /repo
+        raise vlib.Broken("model and BlendRef disagree on Float although blend_eq_ref is proved: " + bad_ref[0])
+    exe = cpp_oracle()
+    if exe:
+        m = 4000 if ctx.quick else 100000
+        def cpp(mode):
+            r = subprocess.run([vlib.ASEDRV], input=f"REFPIX {mode} {ctx.seed * 70 + scale} {m}\n",
+                               capture_output=True, text=True)
+            rows = [l.split(" ") for l in r.stdout.split("\n") if l.startswith("REFPIX ")]
+            inp = "".join(f"{x[1]} {x[2]} {x[3]} {x[4]}\n" for x in rows)
+            c = subprocess.run([exe], input=inp, capture_output=True, text=True)
+            got = c.stdout.split("\n")
+            return [(rows[i], got[i]) for i in range(len(rows)) if got[i] != rows[i][5]]
+        with concurrent.futures.ThreadPoolExecutor(max_workers=vlib.CORES) as ex:
+            diffs = [d for ds in ex.map(cpp, range(19)) for d in ds]
+        res.distribution["cpp_oracle_pixels"] = m * 19
+        res.distribution["cpp_oracle_differences"] = len(diffs)
+        res.evaluations += m * 19
+        if diffs:
+            raise vlib.Broken("the Lean transcription BlendRef differs from the compiled C++ reference "
+                              f"(defect of the spec transcription, not of /repo): {diffs[0]}")
+    else:
+        res.distribution["cpp_oracle_pixels"] = 0
+    return res
+
+
+register("C03", c03_run, profiles=("release", "relchk"))
